@@ -119,9 +119,11 @@ def gen_cases(seed, count, callables=True):
     for _ in range(count):
         init, forms = [], []
         for _e in range(3):
-            names = rng.sample(NAMES, rng.randint(1, 6))
+            # also enumerations that start out EMPTY (dict form; most OpCode.serviceaction enumerations are): several of them in one
+            # history must still be separate objects
+            names = rng.sample(NAMES, rng.choice([0, 0, 1, 2, 3, 4, 5, 6]))
             init.append([[n, gen_value(rng, callables)] for n in names])
-            forms.append(rng.choice(["dict", "kw"]))
+            forms.append(rng.choice(["dict", "kw"]) if names else "dict")
         ops = []
         for _o in range(rng.randint(1, 25)):
             which = rng.randint(0, 2)
